@@ -475,6 +475,11 @@ func (rm *RegistrationManager) NewRegistrationC2SWrapper(c2sw *pb.C2SWrapper, in
 		} else {
 			// apply the ipv6 address from the registration response, if rr.Ipv6Addr is not empty
 			if rr.Ipv6Addr != nil {
+				if len(rr.Ipv6Addr) != net.IPv6len {
+					// net.IP of any other length is not an address: the registration would be
+					// tracked under, and announced to the detector with, a garbage phantom.
+					return nil, fmt.Errorf("failed to build registration: ipv6 phantom override of %d bytes", len(rr.Ipv6Addr))
+				}
                                 ipOverride = net.IP(rr.Ipv6Addr)
                         }
 
